@@ -545,6 +545,8 @@ class C17(GinProp):
             # a game (re)started with an explicitly EMPTY public card map (nothing is asserted about any card): everything the
             # property demands of the map and of the views still applies (model: `newGameWith`, theorems Props/C17b.lean)
             case["hud0"] = "empty"
+        if rng.random() < 0.1:
+            case["pts0"] = True       # a game in progress (re)built with the score fields set to 0 instead of None
         return gin.play(rng, case, probes=self.probes)
 
     def oracle(self, case, evs):
